@@ -230,6 +230,11 @@ def flex_reader(F, R):
         tr = [r for _, r in ret_stores(body, body.reachable_from(st["otherwise"], avoid=[ft]))]
         okz = tr == ["None{}"]
     R.ob("P2.zero-terminates", fn, "next==0", okz, "%s: a zero offset ends the chain (and nothing else does silently)" % fn, where=b["span"])
+    nones = [bb_ for bb_, r in ret_stores(body) if r == "None{}"]
+    resid = [bb_ for bb_, t in body.calls() if t.get("dest") and t["dest"]["v"] == 0 and "FromResidual" in (t["call"].get("def") or "")]
+    R.ob("P2.only-zero-terminates", fn, "None-exits", len(nones) == 1 and len(resid) == 1,
+         "%s: the walk ends (returns None) only at a zero offset or when it was already exhausted; a missing or unreadable slot is an error, "
+         "never a silent end (found %d None stores, %d exhaustion exits)" % (fn, len(nones), len(resid)), where=b["span"])
     okm = max_c in sw
     # item_len: len when last else n with n <= len, else InsufficientSize at pos
     defs = []
